@@ -405,3 +405,125 @@ Proof.
 Qed.
 
 End Block2.
+
+(* ==================================================================================================== *)
+(* Examples over Qc.  Stand-ins: sqrt = exp = 1 (they satisfy every hypothesis; the theorems assume nothing else about
+   them), the m- and argument-dependent "Boys function" [exBoys] of Proofs/RotationMoreP.v.  Shells: the contracted p
+   shell exP (2 primitives, 2 segments) and the d shell exD of Proofs/RotationBlockP.v; l_a < l_b, so
+   [point_charge_block] takes the SWAPPED branch. *)
+From Coq Require Import ZArith QArith Qcanon.
+Definition exKQb : Fops Qc := QcK true (Q2Qc 3) (fun _ => Q2Qc 1) (fun _ => Q2Qc 1) (fun x => x) exBoys.
+Section Examples.
+Let KQ : Fops Qc := exKQb.
+Let KQf : is_field KQ := QcK_field _ _ _ _ _ _.
+Let q (n : Z) (d : positive) : Qc := qc_of n d.
+
+Lemma exKQb_hyps :
+  (forall x, fapx KQ x = x) /\ (forall c, dfnorm KQ c <> f0 KQ) /\ (forall n, ofnat KQ (S n) <> f0 KQ)
+  /\ fadd KQ (f1 KQ) (f1 KQ) <> f0 KQ /\ (forall x y, fexp KQ (fadd KQ x y) = fmul KQ (fexp KQ x) (fexp KQ y)).
+Proof.
+  split; [reflexivity|].
+  split; [intros c H; apply (f_equal this) in H; vm_compute in H; discriminate H|].
+  split; [apply QcK_char0|].
+  split; [intro H; apply (f_equal this) in H; vm_compute in H; discriminate H|].
+  intros; apply Qc_is_canon; vm_compute; reflexivity.
+Qed.
+Lemma exKQb_R345 : orthogonal KQ R345. Proof. exact orthogonal_R345'. Qed.
+Example good_pair_ex : good_pair KQ 1 2 exP exD.
+Proof.
+  destruct block_law_hypotheses_satisfiable as (_ & Wa & Wb & Ca & Cb & Hex).
+  repeat split; try assumption; reflexivity.
+Qed.
+Definition exPts : list (Qc * Qc * Qc * Qc) := [(exC, q 2 1); ((q 1 1, q 0 1, q (-1) 2), q (-1) 1)].
+
+(* the theorems instantiated: nothing left to assume *)
+Example point_charge_block_rotation_law_ex :
+  block_law2 KQ R345 1 2 (pcb_ent KQ exPts 1) (pcb_ent KQ (rot_points KQ R345 exPts) 1).
+Proof.
+  destruct exKQb_hyps as (A & B & C & D & E).
+  apply (point_charge_block_rotation_law KQ KQf A B C R345 exPts 1 1 2 exKQb_R345). cbn. lia.
+Qed.
+Example momentum_block_rotation_law_ex :
+  block_law2 KQ R345 1 2
+    (fun sa sb ma ia mb ib => sum3 KQ (fun i => fmul KQ (matf R345 AY i) (mom_ent KQ i sa sb ma ia mb ib)))
+    (mom_ent KQ AY).
+Proof.
+  destruct exKQb_hyps as (A & B & C & D & E).
+  apply (momentum_block_rotation_law KQ KQf A B D E R345 AY 1 2 exKQb_R345).
+Qed.
+
+(* the block laws re-evaluated on the list-level model (vm_compute, independent of the proofs) *)
+Definition blk2_check (R : @mat3 Qc) (la lb : nat) (ent ent' : nat -> nat -> nat -> nat -> Qc)
+  (ma mb ja jb : nat) : bool :=
+  Qeq_bool
+    (fmul KQ (fmul KQ (dfnorm KQ (cmpd la ja)) (dfnorm KQ (cmpd lb jb))) (ent ma ja mb jb))
+    (FNum.fsum KQ (map (fun ia => FNum.fsum KQ (map (fun ib =>
+        fmul KQ (fmul KQ (fmul KQ (fmul KQ (rep_mat KQ R (cmpd la ia) (cmpd la ja))
+                                           (rep_mat KQ R (cmpd lb ib) (cmpd lb jb)))
+                                  (dfnorm KQ (cmpd la ia))) (dfnorm KQ (cmpd lb ib)))
+          (ent' ma ia mb ib))
+        (seq 0 (length (default_comps lb))))) (seq 0 (length (default_comps la))))).
+(* every entry of the (contracted p, 2 segments) x (shell of angular momentum lb) block *)
+Definition blk2_all (R : @mat3 Qc) (lb : nat) (ent ent' : nat -> nat -> nat -> nat -> Qc) : bool :=
+  forallb (fun ma => forallb (fun ja => forallb (fun jb => blk2_check R 1 lb ent ent' ma 0 ja jb)
+    (seq 0 (length (default_comps lb)))) (seq 0 3)) (seq 0 2).
+Definition e4 (S : list (list (list (list Qc)))) : nat -> nat -> nat -> nat -> Qc :=
+  fun ma ia mb ib => nth ib (nth mb (nth ia (nth ma S []) []) []) (f0 KQ).
+Definition e5 (S : list (list (list (list (list Qc))))) (k : nat) : nat -> nat -> nat -> nat -> Qc :=
+  fun ma ia mb ib => nth k (nth ib (nth mb (nth ia (nth ma S []) []) []) []) (f0 KQ).
+Definition exQ : shell Qc := mkShell Qc 1 (q 0 1) (q 1 3) (q (-1) 1) [q 2 3] [[q 5 7]] false [] [].
+
+(* one point charge, p x p, the improper rotation *)
+Example one_elec_point_law_computed :
+  (let R := Rimp in
+   let C' := mapply KQ R exC in
+   let S := one_elec_point KQ (vget exC 0) (vget exC 1) (vget exC 2) exP exQ in
+   let S' := one_elec_point KQ (vget C' 0) (vget C' 1) (vget C' 2) (rot_shell KQ R exP) (rot_shell KQ R exQ) in
+   blk2_all R 1 (e4 S) (e4 S')) = true.
+Proof. vm_compute. reflexivity. Qed.
+(* PointChargeIntegral block, two points, p x d (swapped branch), the 3-4-5 rotation *)
+Example point_charge_block_law_computed :
+  (let R := R345 in
+   let S := point_charge_block KQ exPts exP exD in
+   let S' := point_charge_block KQ (rot_points KQ R exPts) (rot_shell KQ R exP) (rot_shell KQ R exD) in
+   forallb (fun k => blk2_all R 2 (e5 S k) (e5 S' k)) [0; 1]%nat) = true.
+Proof. vm_compute. reflexivity. Qed.
+Example momentum_block_law_computed :
+  forallb (fun R =>
+    let S := momentum_block_re KQ exP exD in
+    let S' := momentum_block_re KQ (rot_shell KQ R exP) (rot_shell KQ R exD) in
+    forallb (fun k => blk2_all R 2
+      (fun ma ia mb ib => sum3 KQ (fun i => fmul KQ (matf R k i) (e5 S (ax2nat i) ma ia mb ib)))
+      (e5 S' (ax2nat k))) [AX; AY; AZ]) [R345; Rimp] = true.
+Proof. vm_compute. reflexivity. Qed.
+(* multipole moment, p x p: the order o = (1,1,0) of the requested list, against all six second-order moments about R C *)
+Example moment_block_law_computed :
+  forallb (fun R =>
+    let C' := mapply KQ R exC in
+    let o := (1, 1, 0)%nat in
+    let S := moment_block KQ (vget exC 0) (vget exC 1) (vget exC 2) [(0, 0, 1)%nat; o] exP exQ in
+    let S' := moment_block KQ (vget C' 0) (vget C' 1) (vget C' 2) (default_comps 2)
+                (rot_shell KQ R exP) (rot_shell KQ R exQ) in
+    blk2_all R 1 (e5 S 1)
+      (fun ma ia mb ib => FNum.fsum KQ (mk 6 (fun d' =>
+         fmul KQ (rep_mat KQ R (cmpd 2 d') o) (e5 S' d' ma ia mb ib))))) [R345; Rimp] = true.
+Proof. vm_compute. reflexivity. Qed.
+(* not vacuous: the one-electron block does change under the rotation *)
+Example one_elec_point_not_invariant :
+  (let C' := mapply KQ R345 exC in
+   Qeq_bool (e4 (one_elec_point KQ (vget exC 0) (vget exC 1) (vget exC 2) exP exQ) 0 0 0 1)
+            (e4 (one_elec_point KQ (vget C' 0) (vget C' 1) (vget C' 2) (rot_shell KQ R345 exP) (rot_shell KQ R345 exQ))
+                0 0 0 1)) = false.
+Proof. vm_compute. reflexivity. Qed.
+End Examples.
+
+Lemma block2_hypotheses_satisfiable :
+  exists (F : Type) (K : Fops F) (R : @mat3 F) (sa sb : shell F),
+    is_field K /\ (forall x, fapx K x = x) /\ (forall c, dfnorm K c <> f0 K) /\ (forall n, ofnat K (S n) <> f0 K)
+    /\ fadd K (f1 K) (f1 K) <> f0 K /\ (forall x y, fexp K (fadd K x y) = fmul K (fexp K x) (fexp K y))
+    /\ orthogonal K R /\ good_pair K 1 2 sa sb.
+Proof.
+  exists Qc, exKQb, R345, exP, exD. split; [apply QcK_field|].
+  destruct exKQb_hyps as (A & B & C & D & E).
+  repeat (split; [assumption|]). split; [exact exKQb_R345|exact good_pair_ex].
+Qed.
